@@ -117,28 +117,33 @@ def run(ctx):
         stores = [(bb, a) for bb, _, c, a in cs if c == "essential_vm::memory::Memory::store_range"]
         ctx.ob("R4", "two-stores-per-value", len(stores) == 2, f.loc(0), "%d store_range call(s)" % len(stores), f)
         NEXT = r"\(<std::vec::IntoIter<T, A> as std::iter::Iterator>::next\(<std::vec::Vec<T, A> as std::iter::IntoIterator>::into_iter\(values\)\) as Some\)\.0"
+        PAIR = VAL = None
         if len(stores) == 2:
             (b1, a1), (b2, a2) = sorted(stores)
             r1 = [M.render(x) for x in a1]
             r2 = [M.render(x) for x in a2]
-            ctx.ob("R4", "pair-store", r1[1] == "var:mem_addr" and bool(re.match(r"^array\{var:value_addr, int::try_from\(Vec::len\(" + NEXT + r"\)\)\?\}$", r1[2])), f.loc(b1),
+            m1 = re.match(r"^var:(\w+)$", r1[1])
+            m2 = re.match(r"^var:(\w+)$", r2[1])
+            PAIR, VAL = (m1.group(1) if m1 else None), (m2.group(1) if m2 else None)
+            ctx.ob("R4", "pair-store", bool(m1 and m2) and PAIR != VAL and bool(re.match(r"^array\{var:%s, int::try_from\(Vec::len\(" % VAL + NEXT + r"\)\)\?\}$", r1[2])), f.loc(b1),
                    "store_range(%s, %s)" % (r1[1], r1[2][:200]), f)
-            ctx.ob("R4", "value-store", r2[1] == "var:value_addr" and bool(re.match("^" + NEXT + "$", r2[2])), f.loc(b2), "store_range(%s, %s)" % (r2[1], r2[2][:200]), f)
+            ctx.ob("R4", "value-store", bool(m2) and bool(re.match("^" + NEXT + "$", r2[2])), f.loc(b2), "store_range(%s, %s)" % (r2[1], r2[2][:200]), f)
             loops1 = M.loops_containing(f, b1)
             loops2 = M.loops_containing(f, b2)
             ctx.ob("R4", "stores-in-the-values-loop", len(loops1) == 1 and len(loops2) == 1 and loops1[0][0] == loops2[0][0] and f.cfg().dominates(b1, b2), f.loc(b1),
                    "pair store precedes value store inside one loop over `values`", f)
-        # cursor definitions
-        defs = {"mem_addr": set(), "value_addr": set()}
+        # cursor definitions (the cursors are identified by their role in the two stores, not by name)
+        defs = {PAIR: set(), VAL: set()}
         for l, nm in f.names.items():
-            if nm in defs:
+            if nm in defs and nm is not None:
                 t = pv.of_local(l)
-                for alt in (t.sub if t.kind == "phi" else [t]):
+                if t.kind != "phi":
+                    continue
+                for alt in t.sub:
                     defs[nm].add(M.render(alt))
-        want_mem = {"int::try_from(mem_addr)?", "AddWithOverflow(var:mem_addr, 2).0"}
-        defs["mem_addr"].discard("mem_addr")  # the usize parameter shadowed by the Word cursor
-        ctx.ob("R4", "pair-cursor", defs["mem_addr"] == want_mem, f.loc(0), "mem_addr is assigned %s" % sorted(defs["mem_addr"]), f)
-        va = sorted(defs["value_addr"])
-        ok = len(va) == 2 and "i64::checked_add(var:mem_addr, i64::checked_mul(int::try_from(Vec::len(values))?, 2)?)?" in va and any(
-            re.match(r"^AddWithOverflow\(var:value_addr, int::try_from\(Vec::len\(" + NEXT + r"\)\)\?\)\.0$", x) for x in va)
-        ctx.ob("R4", "value-cursor", ok, f.loc(0), "value_addr is assigned %s" % [x[:160] for x in va], f)
+        want_mem = {"int::try_from(mem_addr)?", "AddWithOverflow(var:%s, 2).0" % PAIR}
+        ctx.ob("R4", "pair-cursor", defs.get(PAIR) == want_mem, f.loc(0), "the pair cursor is assigned %s" % sorted(defs.get(PAIR) or []), f)
+        va = sorted(defs.get(VAL) or [])
+        ok = len(va) == 2 and "i64::checked_add(var:%s, i64::checked_mul(int::try_from(Vec::len(values))?, 2)?)?" % PAIR in va and any(
+            re.match(r"^AddWithOverflow\(var:%s, int::try_from\(Vec::len\(" % VAL + NEXT + r"\)\)\?\)\.0$", x) for x in va)
+        ctx.ob("R4", "value-cursor", ok, f.loc(0), "the value cursor is assigned %s" % [x[:160] for x in va], f)
